@@ -95,13 +95,11 @@ def stepRest (s : St) (ws : List String) : St × List String :=
     match parsePayload payload with
     | none => (s, ["bad-op"])
     | some bytes =>
-<<<<<<< HEAD
       -- `ZeroCopySink for hcobs::Encoder` (through `dyn`): `append_borrow` = `encode`, `append_copy` =
       -- `encode_copy`; only the production `Encoder` implements the trait
       let sinkOk : Bool := match s.codec with | .enc _ _ => s.prodApi | _ => false
       if (m = "sb" || m = "sc") && !sinkOk then (s, ["bad-op"]) else
       let m := if m = "sb" then "b" else if m = "sc" then "c" else m
-=======
       if m = "a" then
         -- anchored input read into the codec's OWN arena: `read_n(count = len)` from a slice reader (one
         -- full delivery), then `encode_anchored` / `decode_anchored` = `EncWorld.encodeRead` / `decodeRead`
@@ -119,7 +117,6 @@ def stepRest (s : St) (ws : List String) : St × List String :=
           | none => panic s
         | _, _ => (s, ["bad-op"])
       else
->>>>>>> main
       -- where do the bytes live?
       let place : Option (World × Slice × Method × Option Anchor) :=
         if m = "f" then
